@@ -165,14 +165,31 @@ theorem tempo_number_roundtrip (t : TempoVal) (h : WellFormedTempo t) (d : Dbl) 
     (hc : closeTo d (tempoValue t) = true) : readSoundFloat (writeSound t) = some (some d) :=
   C03.Float.sound_float_roundtrip t h d hn hc
 
+/-- **tempo_text_exponent_roundtrip.**  The float literal as text, exponent notation included (`1.5e-05`, what `repr` prints
+    below 10⁻⁴; `1.23457e+06`): mantissa and exponent parsed from the text written are the ones written. -/
+theorem tempo_text_exponent_roundtrip (t : TempoVal) (h : WellFormedTempo t) (ex : Int) :
+    parseSci (sciText t ex) = some (t, ex) := C03.Float.sci_roundtrip t h ex
+
+/-- **tempo_number_roundtrip_exponent.**  The same as tempo_number_roundtrip for a text with any exponent. -/
+theorem tempo_number_roundtrip_exponent (t : TempoVal) (h : WellFormedTempo t) (ex : Int) (d : Dbl) (hn : d.Normal)
+    (hc : closeTo d (sciValue (t, ex)) = true) : readSoundNum (writeSoundSci t ex) = some (some d) :=
+  C03.Float.sound_num_roundtrip t h ex d hn hc
+
+/-- 1.5e-05 = 8854437155380585 · 2⁻⁶⁹ -/
+example : (⟨8854437155380585, -69⟩ : Dbl).Normal ∧ closeTo ⟨8854437155380585, -69⟩ (sciValue (.dec 1 ['5'], -5)) = true ∧
+    sciText (.dec 1 ['5']) (-5) = "1.5e-05".toList := by decide +kernel
+/-- `"{:g}".format(1234567.0)` = `1.23457e+06` is read as 1234570 = 5302437774622720 · 2⁻³², not as 1234567 -/
+example : readSoundNum (writeSoundSci (.dec 1 "23457".toList) 6) = some (some ⟨5302437774622720, -32⟩) ∧
+    readFloat 1234567 = ⟨5302424889720832, -32⟩ := by decide +kernel
+
 /-- 60 / 0.45 = 133.33333333333334 = 4691249611844267 · 2⁻⁴⁵: its `repr` is inside the interval … -/
 example : (⟨4691249611844267, -45⟩ : Dbl).Normal ∧
     closeTo ⟨4691249611844267, -45⟩ (tempoValue (.dec 133 "33333333333334".toList)) = true := by decide +kernel
 /-- … six significant digits (`"{:g}"`) are not, and come back as another tempo -/
 example : closeTo ⟨4691249611844267, -45⟩ (tempoValue (.dec 133 "333".toList)) = false ∧
     readSoundFloat (writeSound (.dec 133 "333".toList)) = some (some ⟨4691237883720237, -45⟩) := by decide +kernel
-/-- a whole tempo beyond 2⁵³ (10²² = 5421010862427522 · 2²¹) is written with all its digits and read back -/
-example : readFloat (tempoValue (.whole (10 ^ 22))) = ⟨5421010862427522, 21⟩ := by decide +kernel
+/-- a whole tempo beyond 2⁵³ (10²² = 4768371582031250 · 2²¹) is written with all its digits and read back -/
+example : readFloat (tempoValue (.whole 10000000000000000000000)) = ⟨4768371582031250, 21⟩ := by decide +kernel
 /-- the carry into the next binade: just below a power of two -/
 example : readFloat (tempoValue (.dec 127 "99999999999999999".toList)) = ⟨2 ^ 52, -45⟩ := by decide +kernel
 
